@@ -248,8 +248,8 @@ Definition g_not (a : N) : vres :=
 (* ------------------------------------------------------------------ typed family
    Since fix 7e82908 every specialised opcode checks the operand tags: the typed fast path when
    they are the expected ones, the generic operation otherwise.  AddII..ModII, LtII..NeII,
-   ShlII..XorII and NotI share the match arm of the generic opcode (Extracted/DispatchArms.v
-   records which opcodes share an arm): they ARE the generic operation. *)
+   ShlII..XorII and NotI behave exactly as the generic opcode, whose first test is the int fast
+   path (in the code they currently share its match arm). *)
 Definition t_arith_ii (hv : heapview) (o : aop) (a b : N) : vres := g_arith hv o a b.
 Definition t_cmp_ii (hv : heapview) (o : cop) (a b : N) : vres := g_cmp hv o a b.
 Definition t_bit_ii (o : bop) (a b : N) : vres := g_bit o a b.
